@@ -82,13 +82,15 @@ def find (g : Mon) (a : Nat) : Option Rec := g.recs.find? (fun r => r.acct == a)
 def put (g : Mon) (r : Rec) : Mon := { g with recs := g.recs.filter (fun x => x.acct ≠ r.acct) ++ [r] }
 def del (g : Mon) (a : Nat) : Mon := { g with recs := g.recs.filter (fun x => x.acct ≠ a) }
 def okCD (c : CD) : Bool := c.metaN ≤ 10 ∧ (c.metaN = 0 ∨ c.metaLen ≤ 100)
+/-- an entry sitting exactly on a metadata limit -/
+def edgeCD (c : CD) : Bool := c.metaN = 10 ∨ (c.metaN > 0 ∧ c.metaLen = 100)
 
 def plain (g : Mon) (op : Op) : Except String Mon :=
   match op with
   | .add a i ty cs =>
     if (g.recovered.find? (fun p => p.1 == a)).isSome then .error "recovered_registered_again"
-    else if cs = [] then .error "empty" else if cs.length > 15 then .error "limit.countries"
-    else if !cs.all okCD then .error "invalid_metadata"
+    else if cs = [] then .error "empty" else if cs.length > 15 then .error "limit.add_identity.countries"
+    else if !cs.all okCD then .error "limit.add_identity.metadata"
     else if (find g a).isSome then .error "dup"
     else .ok (put g ⟨a, i, ty, cs⟩)
   | .modify a i => match find g a with
@@ -103,12 +105,12 @@ def plain (g : Mon) (op : Op) : Except String Mon :=
         if (find g n).isSome then .error "dup"
         else .ok { (put (del g o) { r with acct := n }) with recovered := g.recovered ++ [(o, n)] }
   | .addCountries a cs =>
-    if cs = [] then .error "empty" else if !cs.all okCD then .error "invalid_metadata"
+    if cs = [] then .error "empty" else if !cs.all okCD then .error "limit.add_country_data_entries.metadata"
     else match find g a with
       | none => .error "absent"
-      | some r => if (r.cs ++ cs).length > 15 then .error "limit.countries" else .ok (put g { r with cs := r.cs ++ cs })
+      | some r => if (r.cs ++ cs).length > 15 then .error "limit.add_country_data_entries.countries" else .ok (put g { r with cs := r.cs ++ cs })
   | .modifyCountry a i c =>
-    if !okCD c then .error "invalid_metadata"
+    if !okCD c then .error "limit.modify_country_data.metadata"
     else match find g a with
       | none => .error "absent"
       | some r => if i ≥ r.cs.length then .error "absent" else .ok (put g { r with cs := r.cs.set i c })
@@ -131,13 +133,16 @@ def check (g : Mon) (opl obs : String) : Mon × Option String :=
       | .error _, false => (g, none)
       | .ok _, false => (g, some (
           let near := match op with
-            | .add _ _ _ cs => if cs.length = 15 then "limit.countries" else "valid"
+            | .add _ _ _ cs => if cs.length = 15 then "limit.add_identity.countries"
+                                else if cs.any edgeCD then "limit.add_identity.metadata" else "valid"
             | .addCountries a cs => (match find g a with
-                | some r => if (r.cs ++ cs).length = 15 then "limit.countries" else "valid"
+                | some r => if (r.cs ++ cs).length = 15 then "limit.add_country_data_entries.countries"
+                            else if cs.any edgeCD then "limit.add_country_data_entries.metadata" else "valid"
                 | none => "valid")
+            | .modifyCountry _ _ c => if edgeCD c then "limit.modify_country_data.metadata" else "valid"
             | _ => "valid"
-          s!"site=irs.{near}_refused the registry refused an operation the plain maps (with their documented limits) accept"))
-      | .error why, true => (g, some s!"site=irs.{why}_accepted the registry accepted an operation the plain maps refuse ({why})")
+          refusedSite "irs" near))
+      | .error why, true => (g, some (acceptedSite "irs" why))
     let as := List.range g2.na
     let idWant := as.map (fun a => s!"{a}:{showOpt ((find g2 a).map (·.ident))}")
     let prWant := as.map (fun a => match find g2 a with
